@@ -18,7 +18,7 @@ ANCHORS = [
     "api.py:Converter.reverse_bimap", "api.py:Converter.from_prefix_map", "api.py:Converter.from_priority_prefix_map",
     "api.py:Converter.from_reverse_prefix_map", "api.py:Converter.from_extended_prefix_map", "api.py:Converter.from_jsonld",
 ]
-DECIDING = ["construct", "record-self-synonym"]
+DECIDING = ["construct", "record-self-synonym", "loader-self-synonym"]
 RULE = (
     "case = a clash-free record collection with 0-2 injected clashes of a chosen kind (canonical/canonical, "
     "canonical/synonym, synonym/canonical, synonym/synonym; CURIE side, URI side or both; sometimes a record repeats one "
@@ -153,6 +153,13 @@ def run_case(ctx, g, rng):
             call(api.Converter, grown)
             S.counters["wl:record-objects-with-a-past"] += 1
             probe.note_key(f"history:{side}:n{len(recs)}", True)
+    # ... nor when the data comes in through a loader
+    r = rng.choice(recs)
+    call(api.Converter.from_priority_prefix_map, {r.prefix: [r.uri_prefix, *r.usyn, r.uri_prefix]})
+    call(api.Converter.from_priority_prefix_map, {r.prefix: [r.uri_prefix, r.uri_prefix]})
+    call(api.Converter.from_extended_prefix_map, [{"prefix": r.prefix, "uri_prefix": r.uri_prefix, "prefix_synonyms": [*r.psyn, r.prefix]}])
+    call(api.Converter.from_extended_prefix_map, [{"prefix": r.prefix, "uri_prefix": r.uri_prefix, "uri_prefix_synonyms": [r.uri_prefix]}])
+    call(api.load_extended_prefix_map, [spec.rec_dict(x) for x in recs[:2]] + [{"prefix": "selfp", "uri_prefix": "http://self/", "prefix_synonyms": ["selfp"]}])
     # a record may never list its own canonical value among its synonyms
     r = rng.choice(recs)
     for kw in (
